@@ -447,9 +447,26 @@ let judge_sched (which : string) g (obs : string) (pre : srv) (eui : n) : string
     let fcnts = List.filter_map frame_fcnt data_downs in
     let dup l = List.length (List.sort_uniq compare l) <> List.length l in
     let uplink_fcnt tag = match parse_event (g tag) with Rx (rx, _, _) -> frame_fcnt rx.rx_raw | _ -> None in
+    (* where in the performed order each handler did what: positions of "<thread>:<operation>" in trace{...} *)
+    let tr = (try let i = Str.search_forward (Str.regexp_string "trace{") obs 0 in
+                let j = String.index_from obs i '}' in
+                let inner = String.sub obs (i + 6) (j - i - 6) in if inner = "" then [] else String.split_on_char ',' inner
+              with Not_found -> []) in
+    let first_pos th op = let rec go i = function [] -> max_int | x :: t -> if x = th ^ ":" ^ op then i else go (i + 1) t in go 0 tr in
+    let last_pos th op = let rec go i best = function [] -> best | x :: t -> go (i + 1) (if x = th ^ ":" ^ op then i else best) t in go 0 (-1) tr in
+    (* the recorded race: each handler read the device row before the other had stored the advanced counter or
+       recorded the frame *)
+    let each_read_before_the_other_wrote =
+      List.for_all (fun (x, y) -> first_pos x "GetDevice" < first_pos y "UpdateDeviceState" && first_pos x "GetDevice" < first_pos y "CreateUpstreamMessage")
+        [("0", "1"); ("1", "0")] in
+    (* ... and for downlink counters: the later reader read before the other's encoder stored its counter *)
+    let snapshots_overlap =
+      List.exists (fun (x, y) -> first_pos x "GetDevice" < last_pos y "UpdateDeviceState" && first_pos y "GetDevice" < last_pos x "UpdateDeviceState")
+        [("0", "1")] in
     (match which with
      | "C03" ->
-       if kind = "copies" && List.length dv.x_inbox > 1 then "bad:sched-copies-recorded-twice"
+       if kind = "copies" && List.length dv.x_inbox > 1 then
+         (if each_read_before_the_other_wrote then "bad:sched-copies-recorded-twice" else "bad:sched-copy-recorded-after-the-other-was-stored")
        else (match uplink_fcnt "f1", uplink_fcnt "f2" with
            | Some a, Some b when not pre_row.d_relaxed ->
              (* the expected counter ends past every recorded counter *)
@@ -458,11 +475,13 @@ let judge_sched (which : string) g (obs : string) (pre : srv) (eui : n) : string
              if top >= 0 && top < 65535 && recorded > 0 && dv.x_fup <= top then "bad:sched-expected-counter-regressed" else "ok"
            | _ -> "ok")
      | "C07" ->
-       if dup fcnts then "bad:sched-downlink-counter-reused"
+       if dup fcnts then (if snapshots_overlap then "bad:sched-downlink-counter-reused" else "bad:sched-downlink-counter-reused-without-overlap")
        else if List.length fcnts > 0 && dv.x_fdn <> (int_of_n pre_row.d_fdn + List.length fcnts) land 0xffff then "bad:sched-downlink-counter-not-advanced-per-frame"
        else "ok"
      | "C09" ->
-       if kind = "copies" && List.length data_downs > 1 then "bad:sched-copies-answered-twice" else "ok"
+       if kind = "copies" && List.length data_downs > 1 then
+         (if each_read_before_the_other_wrote then "bad:sched-copies-answered-twice" else "bad:sched-copy-answered-after-the-other-was-stored")
+       else "ok"
      | "C05" ->
        if List.length accepts > 1 then "bad:sched-devnonce-honoured-twice"
        else if List.length accepts = 1 then begin
